@@ -138,13 +138,90 @@ func VerifC06Keys(s *Session) (pub data.PublicKey, priv data.PrivateKey, share d
 }
 
 // Direct calls of the key functions (used by the function-level cases).
-func VerifC06KeyCheckSync(s *Session) error                   { return s.keyCheckSync() }
-func VerifC06KeyCheckRevert(s *Session)                       { s.keyCheckRevert() }
-func VerifC06KeySessionGenerate(s *Session, n *com.Packet)    { s.keySessionGenerate(n) }
-func VerifC06KeySessionSync(s *Session, n *com.Packet) error  { return s.keySessionSync(n) }
+func VerifC06KeyCheckSync(s *Session) error                  { return s.keyCheckSync() }
+func VerifC06KeyCheckRevert(s *Session)                      { s.keyCheckRevert() }
+func VerifC06KeySessionGenerate(s *Session, n *com.Packet)   { s.keySessionGenerate(n) }
+func VerifC06KeySessionSync(s *Session, n *com.Packet) error { return s.keySessionSync(n) }
 func VerifC06KeyCryptAndUpdate(s *Session, n *com.Packet, d bool) error {
 	return s.keyCryptAndUpdate("verif", n, d)
 }
 func VerifC06KeyListenerInit(s *Session, k data.PrivateKey, n *com.Packet) error {
 	return s.keyListenerInit(k, "verif", n)
+}
+
+// ---- channel mode (oracle-only scenario): the bodies of the four channel loops, one Packet at a
+// time, in the order of the source.  Only the loop, the deadlines and the goroutines are left out.
+
+// VerifC06Conn is the server-side per-connection state of a channel.
+type VerifC06Conn struct{ c *conn }
+
+// VerifC06ChanOpen is what talk() does before a channel starts: the real resolve(), i.e.
+// conn{host: s, keys: COPY of s.keys}.
+func VerifC06ChanOpen(l *Listener, s *Session) (*VerifC06Conn, error) {
+	c, err := l.resolve(s, "verif", nil)
+	return &VerifC06Conn{c: c}, err
+}
+
+// VerifC06ChanConnShare is the share inside the connection-local key copy.
+func (v *VerifC06Conn) VerifC06ChanConnShare() data.SharedKeys { return v.c.keys.Shared() }
+
+// VerifC06ChanClientWrite: body of (*Session).channelWrite for one Packet:
+// next(false); KeyCrypt(s.keys); writePacket; keyCheckRevert on failure, else keyCheckSync.
+func VerifC06ChanClientWrite(s *Session, x net.Conn) error {
+	n := s.next(false)
+	if n == nil {
+		return xerr.Sub("no packet", 0)
+	}
+	n.KeyCrypt(s.keys)
+	if err := writePacket(x, s.w, s.t, n); err != nil {
+		n.Clear()
+		s.keyCheckRevert()
+		return err
+	}
+	s.keyCheckSync()
+	n.Clear()
+	return nil
+}
+
+// VerifC06ChanServerRead: body of (*conn).channelRead for one Packet:
+// readPacket; KeyCrypt(c.keys); c.resolve(..., true); c.process(..., true).
+func VerifC06ChanServerRead(l *Listener, v *VerifC06Conn, x net.Conn) error {
+	n, err := readPacket(x, l.w, l.t)
+	if err != nil {
+		return err
+	}
+	n.KeyCrypt(v.c.keys)
+	if err = v.c.resolve(l.log, v.c.host, l, "verif", n.Tags, true); err != nil {
+		return err
+	}
+	return v.c.process(l.log, l, "verif", n, true)
+}
+
+// VerifC06ChanServerWrite: body of (*conn).channelWrite for one Packet:
+// host.next(false); KeyCrypt(c.keys); writePacket; keyCheckRevert on failure, else keyCheckSync.
+func VerifC06ChanServerWrite(l *Listener, v *VerifC06Conn, x net.Conn) error {
+	n := v.c.host.next(false)
+	if n == nil {
+		return xerr.Sub("no packet", 0)
+	}
+	n.KeyCrypt(v.c.keys)
+	if err := writePacket(x, l.w, l.t, n); err != nil {
+		n.Clear()
+		v.c.host.keyCheckRevert()
+		return err
+	}
+	v.c.host.keyCheckSync()
+	n.Clear()
+	return nil
+}
+
+// VerifC06ChanClientRead: body of (*Session).channelRead for one Packet:
+// readPacket; KeyCrypt(s.keys); receive(s, s.parent, n).
+func VerifC06ChanClientRead(s *Session, x net.Conn) error {
+	n, err := readPacket(x, s.w, s.t)
+	if err != nil {
+		return err
+	}
+	n.KeyCrypt(s.keys)
+	return receive(s, s.parent, n)
 }
